@@ -159,6 +159,8 @@ func child(c *vf.Ctx) {
 	switch c.Child {
 	case "serix":
 		serixChild(c)
+	case "serix-isolate":
+		serixIsolateChild(c)
 	}
 }
 
